@@ -277,8 +277,12 @@ def enc_samples(samples, default_lvl=-1):
     return out
 
 
+LAST_EXPECTED = [None]
+
+
 def expected_lit(can, default_lvl=-1):
     evs = [[(default_lvl if v is None else v) for v in e] for e in can.events]
+    LAST_EXPECTED[0] = (evs, enc_samples(can.samples, default_lvl))
     return f"({zll(evs)}, {zll(enc_samples(can.samples, default_lvl))})"
 
 
@@ -523,6 +527,7 @@ def pool_case(cfg, parent, workers_can):
         xsamples += enc_samples(c.samples)
     clit = lst([f"({w}%nat, {lst([sched_lit(sc) for sc in ss])})" for w, ss in chunks])
     pe = [[(-1 if v is None else v) for v in e] for e in parent.events]
+    LAST_EXPECTED[0] = (pe + [e for lg in xlogs for e in lg], xsamples)
     exp = f"({zll(pe)}, {lst([zll(lg) for lg in xlogs])}, {zll(xsamples)})"
     return f"(({mode_lit(cfg)}, {zlit(cfg['n'])}, {lst([zlit(x) for x in wseeds])}, {clit}), {exp})", wseeds, chunks
 
@@ -675,12 +680,46 @@ COQ_GROUPS = {
 }
 
 
+MODEL_TERM = {
+    "std": "let '(sd, t, m, ss, ex) := c in let '(es, sm, _) := run (std_ops sd t m ss) amb in (map enc_ev es, map enc_sample sm)",
+    "mlc": "let '(sd, t, m, n0, lv, ex) := c in let '(es, sm, _) := run (mlc_ops sd t m n0 lv) amb in (map enc_ev es, map enc_sample sm)",
+    "mlp": "let '(sd, t, m, n0, ps, ex) := c in let '(es, sm, _) := run (mlp_ops sd t m n0 ps) amb in (map enc_ev es, map enc_sample sm)",
+    "pool": "let '(m, n, ws, ch, ex) := c in let '(pe, logs, sm) := pool_run (mkGen (-1) 0 0) m n ws ch in "
+            "(map enc_ev pe ++ concat (map (map enc_ev) logs), map enc_sample sm)",
+}
+
+
+def explain_mismatch(group, case, expected):
+    """evaluates the model on one disagreeing case and says where its trace leaves the implementation's"""
+    import re
+    from common import coq_eval_file
+    text = (HEADER + f"Definition c : {COQ_GROUPS[group][0]} := {case}.\n"
+            f"Definition out := Eval vm_compute in ({MODEL_TERM[group]}).\nPrint out.\n")
+    try:
+        rc, out = coq_eval_file(PROP, "explain", text, timeout=300)
+        body = out[out.index("=") + 1:out.rindex(":")]
+        body = re.sub(r"\s+", " ", body).replace(";", ",").replace("(", "[").replace(")", "]")
+        mev, msm = json.loads(body)
+    except Exception as e:  # noqa: BLE001 -- explanation only
+        return f"(no explanation: {type(e).__name__}: {e})"
+    xev, xsm = expected
+    for name, a, b in (("event", mev, xev), ("sample", msm, xsm)):
+        for i in range(max(len(a), len(b))):
+            x = a[i] if i < len(a) else None
+            y = b[i] if i < len(b) else None
+            if x != y:
+                return (f"first difference: {name} #{i}: model {x} vs implementation {y} "
+                        f"(model {len(a)} {name}s, implementation {len(b)}; context impl {b[max(0, i - 3):i + 2]})")
+    return "model output equals the expected lists when re-evaluated (literal/encoding problem?)"
+
+
 def correspond(res):
     E = env()
     rng = random.Random(res.seed)
     cfgs = gen_cfgs(rng, res.tier)
     cases = {g: [] for g in COQ_GROUPS}
     info = {g: [] for g in COQ_GROUPS}
+    expect = {g: [] for g in COQ_GROUPS}
     try:
         for group in ("std", "mlc", "mlp", "pool", "mlpool"):
             for cfg in cfgs[group]:
@@ -688,6 +727,7 @@ def correspond(res):
                 if case is not None:
                     cases[group].append(case)
                     info[group].append(cfg)
+                    expect[group].append(LAST_EXPECTED[0])
             if group in RUNNER:   # two runs with the same seed, different ambient generator states: bit-for-bit equal
                 seeded = [c for c in cfgs[group] if c["seed"] is not None]
                 for cfg in seeded[:: (3 if res.tier == "quick" else 1)]:
@@ -703,7 +743,7 @@ def correspond(res):
         if bad[g]:
             i = bad[g][0]
             res.broke(f"correspondence {g}", f"model trace and implementation trace differ on {len(bad[g])} of {len(cs)} run(s), first: "
-                                             f"config={info[g][i]} case={cs[i][:1200]}")
+                                             f"config={info[g][i]} {explain_mismatch(g, cs[i], expect[g][i])} case={cs[i][:600]}")
         else:
             res.case_ok += 1
 
